@@ -8,7 +8,7 @@ if ! git -C /repo apply "$patch" 2>/dev/null; then
   if ! git -C /repo apply --3way "$patch" 2>/dev/null; then echo "PATCH-DOES-NOT-APPLY $patch"; git -C /repo reset -q --hard HEAD; exit 3; fi
 fi
 for c in $checks; do
-  out=$(./check "$c" --tier "$tier" 2>/dev/null | grep -E "VIOLATION|class:|HARNESS|quick:|thorough:" | cut -c1-260)
+  out=$(VERIF_EVIDENCE_DIR=/dev/shm/acts-seed-evidence ./check "$c" --tier "$tier" 2>/dev/null | grep -E "VIOLATION|class:|HARNESS|quick:|thorough:" | cut -c1-260)
   if echo "$out" | grep -q VIOLATION; then echo "[$c] DETECTED"; else echo "[$c] missed"; fi
   echo "$out" | grep -E "class:|HARNESS" | head -4
 done
